@@ -180,6 +180,10 @@ def _callers_validate(E, R, rule, fn, hb, sname):
     whys = []
     for hc, c in callers:
         a = _try_inner(c["args"][pos[0]])
+        if local_name(a) and pos[1] is not None:
+            ini_ = let_init(hc["body"], local_name(a))
+            if ini_ is not None:
+                a = _try_inner(ini_)
         good = False
         if pos[1] is not None:
             # tuple argument: either `digit_lexer(x)?` as a whole, or a literal tuple whose element is a span
@@ -188,6 +192,8 @@ def _callers_validate(E, R, rule, fn, hb, sname):
                 whys.append("%s(..)?" % last_seg(norm(a["callee"])))
             elif a.get("k") == "Tup":
                 el = strip(a["es"][pos[1]])
+                if local_name(el) and let_init(hc["body"], local_name(el)) is not None:
+                    el = strip(let_init(hc["body"], local_name(el)))
                 if el.get("k") == "Call" and norm(el.get("callee", "")) == "lex::span":
                     good, w = _span_validated(E, hc, el)
                     whys.append(w)
@@ -241,6 +247,22 @@ def _span_validated(E, hc, span_call):
     return False, "span bounds not derived from a digit lexer"
 
 
+def _byte_notation(E, call):
+    """(digits, radix) that a call of fixed_byte passes: two literals, or one constant of a struct with these two fields"""
+    args = call["args"][1:]
+    if len(args) == 2:
+        return (lit_value(args[0]), lit_value(args[1]))
+    if len(args) == 1:
+        r = path_res(args[0]) or {}
+        for c in E.hir_list:
+            if "body" in c and c["path"] == r.get("path") and str(c.get("kind", "")).startswith(("Const", "AssocConst")):
+                st = strip(c["body"])
+                if st.get("k") == "Struct":
+                    fl = {f["name"]: lit_value(f["e"]) for f in st["fields"]}
+                    return (fl.get("digits"), fl.get("radix"))
+    return None
+
+
 def rule_radix(E, R):
     rule = "R06-radix"
     fn = "rhs_types::int::{impl lex::Lex for i64}::lex"
@@ -253,7 +275,7 @@ def rule_radix(E, R):
 
         def kind_of(atom):
             nodes = [v.node for v in (atom.scruts or [])] + ([atom.node] if atom.node is not None else [])
-            lits = [x["lit"].get("v") for n_ in nodes for x in exprs(S.resolve(n_, atom.frame).node, "Lit")]
+            lits = [lit_value(x) for n_ in nodes for x in exprs(S.resolve(n_, atom.frame).node, ("Lit", "Path"))]
             meths = [c_["m"] for n_ in nodes for c_ in exprs(S.resolve(n_, atom.frame).node, "MethodCall")]
             if "0x" in lits:
                 return "0x"
@@ -293,15 +315,28 @@ def rule_radix(E, R):
             R.cannot(rule, fn, "anchor not found")
             continue
         cs = list(calls(hh["body"], r"^rhs_types::bytes::fixed_byte$"))
-        good = len(cs) == 1 and lit_value(cs[0]["args"][1]) == digits and lit_value(cs[0]["args"][2]) == radix
-        R.check(good, rule, fn, "exactly %d digits of radix %d" % (digits, radix), where=hh["span"])
+        got_ = _byte_notation(E, cs[0]) if len(cs) == 1 else None
+        R.check(got_ == (digits, radix), rule, fn, "exactly %d digits of radix %d" % (digits, radix), "passes %s" % (got_,), hh["span"])
     # fixed_byte: take(input, digits) then radix passed through
     fb = E.hir("rhs_types::bytes::fixed_byte")
     if fb:
         tk = list(calls(fb["body"], r"^lex::take$"))
         fr = list(calls(fb["body"], r"from_str_radix$"))
-        good = len(tk) == 1 and is_param(tk[0]["args"][1], fb, 1) and fr and \
-            all(is_param(c["args"][1], fb, 2) for c in fr if local_name(c["args"][0]))
+        import sem
+        Sf = sem.Sem(E, fb, inline=False)
+
+        def from_param(n_, want_field):
+            """the value is a parameter after the input (by position or, for a parameter struct, by field name)"""
+            v_ = Sf.resolve(n_, Sf.root)
+            b_ = v_.bind or Sf.lookup(v_.node, v_.frame)
+            if b_ is not None and b_.kind == "param" and b_.index >= 1:
+                return True
+            if b_ is not None and b_.proj and b_.proj[-1][0] == "f" and b_.proj[-1][2] == want_field and b_.expr is not None:
+                return (sem.param_index(Sf, b_.expr, b_.frame) or 0) >= 1
+            n2 = strip(v_.node)
+            return n2.get("k") == "Field" and n2.get("name") == want_field and (sem.param_index(Sf, n2["e"], v_.frame) or 0) >= 1
+        good = len(tk) == 1 and from_param(tk[0]["args"][1], "digits") and fr and \
+            all(from_param(c["args"][1], "radix") for c in fr if local_name(c["args"][0]))
         R.check(good, rule, "rhs_types::bytes::fixed_byte", "takes exactly `digits` characters and parses with `radix`",
                 where=fb["span"])
     else:
